@@ -16,6 +16,7 @@ import C4E.Props.C02
 import C4E.Props.C03
 import C4E.Lemmas.DistrTotal
 import C4E.Lemmas.DistrInvariant
+import C4E.App
 namespace C4E.Props.C10
 open C4E
 
@@ -203,6 +204,86 @@ theorem distributor_block_nonvacuous : BurnerOk exEnv ∧ FullInv exEnv exWorld 
     rw [this]
     simp only [amountOf]
     split <;> decide)
+
+/-! ### minter and distributor together: the custom modules' BeginBlock over whole histories -/
+
+theorem creditMain_fullInv (e : Env) (w : Distr.World) (denom : String) (amt : Int) (h : FullInv e w) (ha : 0 ≤ amt) :
+    FullInv e { w with bank := App.creditMain e w.bank denom amt } := by
+  unfold App.creditMain
+  split
+  · exact h
+  · have hbal : ∀ addr, Bank.balance { w.bank with bal := w.bank.bal.set e.mainAddr (CoinList.add (w.bank.balance e.mainAddr) [(denom, amt)]) } addr
+        = if addr = e.mainAddr then CoinList.add (w.bank.balance e.mainAddr) [(denom, amt)] else w.bank.balance addr := by
+      intro addr
+      unfold Bank.balance
+      simp only []
+      by_cases h1 : addr = e.mainAddr
+      · rw [h1, AList.get?_set_self]; simp
+      · rw [AList.get?_set_other _ _ _ _ h1]; simp [h1]
+    refine ⟨blockInv_inflow e w _ h.books ⟨rfl, ?_⟩, h.states2, ?_, ?_⟩
+    · intro d
+      show _ ≤ amountOf (Bank.balance _ e.mainAddr) d
+      rw [hbal]
+      simp only [if_true, amountOf_add, amountOf]
+      split <;> omega
+    · intro addr
+      show Sorted (Bank.balance _ addr)
+      rw [hbal]
+      split
+      · exact sorted_add _ _ (h.bank.1 _) (sorted_single _ _)
+      · exact h.bank.1 addr
+    · intro addr hm
+      show EN (Bank.balance _ addr)
+      rw [hbal, if_neg hm]
+      exact h.bank.2 addr hm
+
+/-- the composed run, given that the minter's own run over the same block times succeeds with
+    non-negative amounts (which `C02.path_independent` provides) -/
+theorem run_of_minter_run (e : Env) (henv : EnvOk e) (hmod : e.modAddr? "" = none) (hburn : BurnerOk e)
+    (p : Minter.Params) : ∀ (blocks : List App.Block) (st : Minter.St) (w : Distr.World) (as : List Int) (st' : Minter.St),
+    C02.runBlocks p st (blocks.map (·.time)) = some (as, st') → (∀ a ∈ as, 0 ≤ a) →
+    (∀ b ∈ blocks, paramsValid e b.subs = true ∧ Bech32Facts b.subs) → FullInv e w →
+    ∃ s', App.run e p { mst := st, world := w } blocks = .ok s' ∧ FullInv e s'.world
+  | [], st, w, as, st', _, _, _, hinv => ⟨_, rfl, hinv⟩
+  | b :: rest, st, w, as, st', hrun, hnn, hcfg, hinv => by
+    simp only [List.map_cons, C02.runBlocks] at hrun
+    split at hrun
+    · rename_i r hm
+      split at hrun
+      · rename_i as' s2 hrest
+        cases hrun
+        have ha : 0 ≤ r.amount := hnn r.amount (by simp)
+        have hinv1 := creditMain_fullInv e w p.denom r.amount hinv ha
+        obtain ⟨br, hbr, hinv2, _⟩ := distributor_block_completes e henv hmod hburn b.subs (hcfg b (by simp)).1 (hcfg b (by simp)).2
+          { w with bank := App.creditMain e w.bank p.denom r.amount } b.faults hinv1
+        obtain ⟨s', hs', hf⟩ := run_of_minter_run e henv hmod hburn p rest r.st br.world as' st' hrest
+          (fun a ha' => hnn a (by simp [ha'])) (fun b' hb' => hcfg b' (by simp [hb'])) hinv2
+        refine ⟨s', ?_, hf⟩
+        unfold App.run App.beginBlock Minter.beginBlock
+        simp only [hm, hbr]
+        exact hs'
+      · cases hrun
+    · cases hrun
+
+/-- **C10 for the two modules together, over whole histories**: minter parameters accepted by
+    validation (linear periods of at least a millisecond), a genesis-like minter state, strictly
+    increasing block times after the start, a distributor world satisfying the invariant, and in every
+    block ANY distributor configuration accepted by `Params.Validate` and ANY pattern of failing bank
+    calls: every `BeginBlock` of cfeminter followed by cfedistributor completes -/
+theorem custom_beginblock_never_halts (e : Env) (henv : EnvOk e) (hmod : e.modAddr? "" = none) (hburn : BurnerOk e)
+    (raw : Minter.RawParams) (p : Minter.Params) (hval : Minter.validate raw = some p)
+    (hsane : Minter.Sane p.start p.minters) (st : Minter.St) (hg : C02.GenesisLike p st)
+    (blocks : List App.Block) (hinc : (blocks.map (·.time)).Pairwise (· < ·))
+    (hafter : ∀ b ∈ blocks, p.start < b.time)
+    (hcfg : ∀ b ∈ blocks, paramsValid e b.subs = true ∧ Bech32Facts b.subs)
+    (w : Distr.World) (hinv : FullInv e w) :
+    ∃ s', App.run e p { mst := st, world := w } blocks = .ok s' ∧ FullInv e s'.world := by
+  obtain ⟨as, st', hrun, hnn, _⟩ := C02.path_independent p (C02.valid_of_validate raw p hval hsane) st hg
+    (blocks.map (·.time)) hinc (by
+      intro t ht
+      obtain ⟨b, hb, rfl⟩ := List.mem_map.mp ht
+      exact hafter b hb)
+  exact run_of_minter_run e henv hmod hburn p blocks st w as st' hrun hnn hcfg hinv
 
 end DistributorNoHalt
 
